@@ -21,9 +21,8 @@ class NotifyServer:
 
         while True:
             try:
-                data = await reader.read(32)
-                if not data:
-                    break
+                # an id is 32 bytes, however the transport chunks the stream
+                data = await reader.readexactly(32)
                 self.log.debug(
                     "Broadcasting %s to %s connections",
                     data.hex(),
@@ -34,6 +33,8 @@ class NotifyServer:
                     if peer != writer:
                         peer.write(data)
                         await peer.drain()
+            except asyncio.IncompleteReadError:
+                break
             except asyncio.exceptions.CancelledError:
                 writer.close()
                 break
@@ -80,13 +81,14 @@ class NotifyClient:
 
         while True:
             try:
-                data = await reader.read(32)
-                if not data:
-                    break
+                # an id is 32 bytes, however the transport chunks the stream
+                data = await reader.readexactly(32)
                 event = await self.storage.get_event(data.hex())
                 if event:
                     self.log.debug("Got %s", data.hex())
                     await self.storage.notify_all_connected(event)
+            except asyncio.IncompleteReadError:
+                break
             except asyncio.exceptions.CancelledError:
                 self.writer.close()
                 break
